@@ -545,7 +545,7 @@ def adaptor_rx_fidelity(tree, ob):
             cond = [(t, p) for (t, p) in (fv.facts(up) or ()) if not t.startswith('isinstance(')]
             if rets or cond:
                 ob.violate(CLA, qual, (src(rets[0]) if rets else 'hand-over under ' + cond[0][0])[:80], 'a finished reception is not always taken from the CL and handed to the agent (the adaptor decides by '
-                           'its own bookkeeping, e.g. transfer numbers it has seen): a CL that restarts its numbering has its new bundles dropped', rets[0] if rets else up, sure=True)
+                           'its own bookkeeping, e.g. transfer numbers it has seen): a CL that restarts its numbering has its new bundles dropped', rets[0] if rets else up)
             elif txt not in want:
                 ob.violate(CLA, qual, src(up)[:60] + '  with ' + txt[:50], 'what is handed to the agent is not exactly the data popped for the announced transfer', up)
             else:
